@@ -81,6 +81,13 @@ def process_case(case, lit, want_text, capture_opt=False, disable_opt=False):
         except ffx.Unsupported as e:
             kd["unsupported"] = str(e)
         out["kernels"].append(kd)
+    if capture_opt:
+        out["opt_calls"] = []
+        for before, after in cap.opt_calls:
+            try:
+                out["opt_calls"].append(ffx.conv_opt_call(before, after))
+            except ffx.Unsupported as e:
+                out["opt_calls"].append({"unsupported": str(e)})
     return out
 
 
@@ -130,6 +137,7 @@ def main():
         signal.alarm(int(job.get("timeout", 120)))
         try:
             r = process_case(case, job.get("lit", "exact"), job.get("want_text", False),
+                             capture_opt=job.get("capture_opt", False),
                              disable_opt=job.get("disable_opt", False))
         except CaseTimeout:
             r = {"id": case["id"], "code": case["code"], "status": "timeout", "kernels": []}
